@@ -279,6 +279,13 @@ func (l *Linter) lintInfixExpression(exp *ast.InfixExpression, ctx *context.Cont
 		default:
 			l.Error(InvalidTypeExpression(exp.GetMeta(), left, types.IntegerType, types.FloatType, types.RTimeType).Match(OPERATOR_CONDITIONAL))
 		}
+		// RTIME may be compared with INTEGER or FLOAT (and vice versa) only when the right operand is a variable:
+		// `var.rtime > 10` and `var.integer > 5s` are rejected at runtime ("right ... type could not be a literal").
+		if (left == types.RTimeType) != (right == types.RTimeType) && isLiteralExpression(exp.Right) &&
+			expectType(left, types.IntegerType, types.FloatType, types.RTimeType) &&
+			expectType(right, types.IntegerType, types.FloatType, types.RTimeType) {
+			l.Error(InvalidTypeExpression(exp.GetMeta(), right, left).Match(OPERATOR_CONDITIONAL))
+		}
 		return types.BoolType
 	case "~", "!~":
 		// Regex operator could compare only STRING, IP or ACL type
